@@ -532,3 +532,26 @@ Proof.
   { unfold va, key_match. cbn. rewrite H1, H2, H3, !N.eqb_refl, (proj2 (memb_mem _ _) M2). reflexivity. }
   rewrite K1, K2 in Hcnt. cbn in Hcnt. lia.
 Qed.
+
+(* ---------- ordered-path lookup with a single collection is the plain lookup ---------- *)
+Lemma path_rows_single s c ty d q :
+  path_rows s [c] ty d q = map (fun r => (0, r)) (overlapping s c ty d q).
+Proof.
+  unfold path_rows, overlapping, key_match. induction (calibs s) as [|r l IH]; cbn [flat_map filter map]; [reflexivity|].
+  rewrite IH. cbn [rank_of]. destruct (r_coll r =? c) eqn:E1; cbn [andb app]; [|reflexivity].
+  destruct ((r_ty r =? ty) && (r_did r =? d) && py_overlaps (r_ts r) q) eqn:E2; reflexivity.
+Qed.
+
+Lemma fold_best_zero (l : list crow) : forall row tie,
+  fold_left best_step (map (fun r => (0, r)) l) (0, row, tie) = (0, row, tie || match l with [] => false | _ => true end).
+Proof.
+  induction l as [|r l IH]; intros row tie; cbn [map fold_left]; [rewrite orb_false_r; reflexivity|].
+  unfold best_step at 2. cbn [fst snd]. cbn. rewrite IH. destruct tie, l; reflexivity.
+Qed.
+
+Lemma lookup_path_single_p s c ty d q : lookup_path s [c] ty d q = lookup_span s c ty d q.
+Proof.
+  unfold lookup_path, lookup_span. rewrite path_rows_single.
+  destruct (overlapping s c ty d q) as [|r l]; cbn [map]; [reflexivity|].
+  cbn [fst snd]. rewrite fold_best_zero. destruct l; reflexivity.
+Qed.
